@@ -16,3 +16,4 @@ const verifBoundFSCommits = 2
 const verifBoundROTail = 6
 const verifBoundArchive = 2
 const verifBoundDataLossBytes = 12
+const verifBoundConjoinChunks = 1
